@@ -108,6 +108,7 @@ func runC11(c *vk.Ctx) {
 			return accs[k]
 		}
 		supply0 := ch.App.BankKeeper.GetSupplyWithOffset(ch.Ctx, "uosmo").Amount
+		crashOut := sdkmath.ZeroInt()
 		sig := func(op string) map[string]any { return map[string]any{"op": op} }
 
 		check := func(op string, afterRefresh bool) bool {
@@ -430,7 +431,23 @@ func runC11(c *vk.Ctx) {
 					pid = clID
 				}
 				bal := ch.Bal(poolmanagertypes.NewPoolAddress(pid), din)
-				if bal.IsPositive() {
+				if r.Intn(8) == 0 {
+					// a crash (xxx dumped into the pool, the share value in OSMO collapses to dust, small locks become
+					// worthless and their stake is refreshed to zero) or, after one, the recovery (the OSMO that the
+					// crash took out is sold back, the price returns to about where it was)
+					pid = balID
+					if crashOut.IsNil() || !crashOut.IsPositive() {
+						op = "swap-crash"
+						bx := ch.Bal(poolmanagertypes.NewPoolAddress(pid), "xxx")
+						before := ch.Bal(trader.Addr, "uosmo")
+						ch.Exec(&poolmanagertypes.MsgSwapExactAmountIn{Sender: trader.Addr.String(), Routes: []poolmanagertypes.SwapAmountInRoute{{PoolId: pid, TokenOutDenom: "uosmo"}}, TokenIn: sdk.NewCoin("xxx", bx.Mul(sdkmath.NewIntFromBigInt(r.BigMag(2, 9)))), TokenOutMinAmount: sdkmath.OneInt()})
+						crashOut = ch.Bal(trader.Addr, "uosmo").Sub(before)
+					} else {
+						op = "swap-recover"
+						ch.Exec(&poolmanagertypes.MsgSwapExactAmountIn{Sender: trader.Addr.String(), Routes: []poolmanagertypes.SwapAmountInRoute{{PoolId: pid, TokenOutDenom: "xxx"}}, TokenIn: sdk.NewCoin("uosmo", crashOut), TokenOutMinAmount: sdkmath.OneInt()})
+						crashOut = sdkmath.ZeroInt()
+					}
+				} else if bal.IsPositive() {
 					ch.Exec(&poolmanagertypes.MsgSwapExactAmountIn{Sender: trader.Addr.String(), Routes: []poolmanagertypes.SwapAmountInRoute{{PoolId: pid, TokenOutDenom: dout}}, TokenIn: sdk.NewCoin(din, sdkmath.MaxInt(sdkmath.OneInt(), bal.QuoRaw(3+r.I64n(100)))), TokenOutMinAmount: sdkmath.OneInt()})
 				}
 			default: // time: a block, an epoch, or a jump past the unbonding period
